@@ -7,8 +7,8 @@ PROPS = {}
 
 PROPS['C02'] = dict(
     engine='A', technique='symbolic-scalar execution of the real templates (T = z3 real terms) + QF_NRA obligations, exact-rational replay',
-    harnesses=[dict(name='C02_eval_large', src='C02_eval.cpp', defs=dict(quick=['-DFIXED_GRID', '-DLARGE=13'], thorough=['-DFIXED_GRID', '-DLARGE=18', '-DLARGE_ALL', '-DLARGE_HIST=10']),
-                    functions=['Spline::operator() on every window of a 13-point (thorough: 18-point) fixed rational grid at order 1 (thorough: 0, 1, 3), 30 sampled windows at order 3; objects with a history on sampled window pairs'], chunk=4),
+    harnesses=[dict(name='C02_eval_large', src='C02_eval.cpp', defs=dict(quick=['-DFIXED_GRID', '-DLARGE=17', '-DLARGE_HIST=4'], thorough=['-DFIXED_GRID', '-DLARGE=20', '-DLARGE_ALL', '-DLARGE_HIST=10']),
+                    functions=['Spline::operator() on every window of a 17-point (thorough: 20-point) fixed rational grid at order 1 (thorough: 0, 1, 3), 30 sampled windows at order 3; objects with a history on sampled window pairs'], chunk=4),
                dict(name='C02_eval_high', src='C02_eval.cpp', defs=dict(quick=['-DFIXED_GRID', '-DMAXN=4'], thorough=['-DFIXED_GRID', '-DMAXN=6']),
                     functions=['Spline::operator() for orders 6, 8, 10, 20 on a fixed rational grid (x and coefficients symbolic)']),
                dict(name='C02_eval', src='C02_eval.cpp',
@@ -28,8 +28,8 @@ PROPS['C03'] = dict(
     harnesses=[dict(name='C03_intscalar', src='C03_intscalar.cpp', defs=dict(quick=['-DSYMT_IMPLICIT_INT', '-DMAXN=3'], thorough=['-DSYMT_IMPLICIT_INT', '-DMAXN=4']),
                     functions=['Spline::operator/(T), operator*(T), operator*=, operator/= called with integer-typed arguments (int, long, unsigned, unsigned short, size_t)']),
                dict(name='C03_arith_large', src='C03_arith.cpp', chunk=1,
-                    defs=dict(quick=['-DFIXED_GRID', '-DLARGE=13'], thorough=['-DFIXED_GRID', '-DLARGE=18', '-DNSAMPLE=16', '-DLCMANY=16']),
-                    functions=['Spline arithmetic on sampled window pairs of a 13-point (thorough: 18-point) fixed rational grid; scalar and aliasing forms on every window; linearCombination of 4..9 (16) splines']),
+                    defs=dict(quick=['-DFIXED_GRID', '-DLARGE=17'], thorough=['-DFIXED_GRID', '-DLARGE=20', '-DNSAMPLE=16', '-DLCMANY=16']),
+                    functions=['Spline arithmetic on sampled window pairs of a 17-point (thorough: 20-point) fixed rational grid; scalar and aliasing forms on every window; linearCombination of 4..9 (16) splines']),
                dict(name='C03_arith_high', src='C03_arith.cpp', defs=dict(quick=['-DFIXED_GRID', '-DMAXN=3'], thorough=['-DFIXED_GRID', '-DMAXN=4']),
                     functions=['Spline arithmetic for order pairs in {4,6,9,10}^2, scalar operations on orders 8 and 10, linearCombination on order 7 (fixed rational grid)']),
                dict(name='C03_arith', src='C03_arith.cpp',
@@ -49,8 +49,8 @@ PROPS['C03'] = dict(
 PROPS['C04'] = dict(
     engine='A', technique='symbolic-scalar execution of the real templates (T = z3 real terms) + QF_NRA obligations, exact-rational replay',
     harnesses=[dict(name='C04_primops_large', src='C04_primops.cpp', chunk=2,
-                    defs=dict(quick=['-DFIXED_GRID', '-DLARGE=13'], thorough=['-DFIXED_GRID', '-DLARGE=18', '-DLARGE_ALL']),
-                    functions=['Derivative<n>/Position<n>/Identity transforms on every window of a 13-point (thorough: 18-point) fixed rational grid for (n, order) in {(1,1),(2,3),(3,2),(1,0)} (thorough: 8 pairs)']),
+                    defs=dict(quick=['-DFIXED_GRID', '-DLARGE=17'], thorough=['-DFIXED_GRID', '-DLARGE=20', '-DLARGE_ALL']),
+                    functions=['Derivative<n>/Position<n>/Identity transforms on every window of a 17-point (thorough: 20-point) fixed rational grid for (n, order) in {(1,1),(2,3),(3,2),(1,0)} (thorough: 8 pairs)']),
                dict(name='C04_primops_high', src='C04_primops.cpp',
                     defs=dict(quick=['-DHIGH_ORDERS', '-DMAXN=2', '-DMAXO=0', '-DMAXD=0'], thorough=['-DHIGH_ORDERS', '-DMAXN=2', '-DMAXO=0', '-DMAXD=0']),
                     functions=['Derivative<n>::transform and Position<n>::transform for n, order in {0,1,3,5,8,13,20,21,22,25}^2 and for every n = 0..4, order = 4..12']),
@@ -93,8 +93,8 @@ PROPS['C06'] = dict(
         defs=dict(quick=['-DFIXED_GRID', '-DMAXN=3', '-DFO=1'], thorough=['-DFIXED_GRID', '-DMAXN=4', '-DFO=1']),
         functions=['BilinearForm::evaluateInterval for order pairs in {5,6,7,8,10}^2 (fixed rational grid)'])),
                dict(mode='c06lg', ntu=4, template=dict(
-        defs=dict(quick=['-DFIXED_GRID', '-DLARGE=13', '-DFO=1'], thorough=['-DFIXED_GRID', '-DLARGE=18', '-DNSAMPLE=14', '-DFO=1']), chunk=1,
-        functions=['BilinearForm on sampled window pairs of a 13-point (thorough: 18-point) fixed rational grid, order pairs (1,1), (2,1), (0,3)']))],
+        defs=dict(quick=['-DFIXED_GRID', '-DLARGE=17', '-DFO=1'], thorough=['-DFIXED_GRID', '-DLARGE=20', '-DNSAMPLE=14', '-DFO=1']), chunk=1,
+        functions=['BilinearForm on sampled window pairs of a 17-point (thorough: 20-point) fixed rational grid, order pairs (1,1), (2,1), (0,3)']))],
     bounds=dict(quick='14 operator pairs over {I, Dx<1>, Dx<2>, X<1>, X<2>, SplineOperator(v), X<2>Dx<1>+c X<1>-3, -Dx<2>/2, v*Dx<1>, c-X<1>} (position-dependent operators in both slots); order pairs {0..3}^2 (all four size parities of the kernel); every ordered window pair on grids of 2..4 symbolic points; factor windows {whole, empty, [0,2), [1,n)}; operands with a history (a queried zero object re-assigned by lower-order assignment / += / copy and *=); plus order pairs {5,6,7,8,10}^2 for 4 operator pairs on FIXED irregular rational grids of 2..3 points (coefficients symbolic) - the kernel sizes the examples use',
                 thorough='68 operator pairs, order pairs {0..4}^2, grids of 2..5 points, every factor window; high-order part: 10 operator pairs, grids of 2..4 points'),
     outside='operator pairs and orders beyond the bound; floating-point rounding (C16)',
@@ -111,8 +111,8 @@ PROPS['C07'] = dict(
         defs=dict(quick=['-DFIXED_GRID', '-DMAXN=3', '-DFO=1'], thorough=['-DFIXED_GRID', '-DMAXN=3', '-DFO=1']),
         functions=['LinearForm::evaluateInterval for orders 5..11 (fixed rational grid)'])),
                dict(mode='c07lg', ntu=4, template=dict(
-        defs=dict(quick=['-DFIXED_GRID', '-DLARGE=13', '-DFO=1'], thorough=['-DFIXED_GRID', '-DLARGE=18', '-DNSAMPLE=14', '-DFO=1']), chunk=1,
-        functions=['LinearForm on every window of a 13-point (thorough: 18-point) fixed rational grid, orders 1 and 2; link to the bilinear form on sampled window pairs']))],
+        defs=dict(quick=['-DFIXED_GRID', '-DLARGE=17', '-DFO=1'], thorough=['-DFIXED_GRID', '-DLARGE=20', '-DNSAMPLE=14', '-DFO=1']), chunk=1,
+        functions=['LinearForm on every window of a 17-point (thorough: 20-point) fixed rational grid, orders 1 and 2; link to the bilinear form on sampled window pairs']))],
     bounds=dict(quick='linear forms of 10 operators on splines of order 0..4 (both parities of the kernel), every window and every factor window on grids of 2..4 symbolic points; bilinear = LinearForm{}((O1 a)*(O2 b)) for 14 operator pairs, order pairs {0..3}^2, every ordered window pair; plus orders 5..11 (linear forms) and order pairs (6,5), (7,8) (link) on a FIXED irregular rational 3-point grid with symbolic coefficients',
                 thorough='orders 0..5, 68 operator pairs, grids of 2..5 points'),
     outside='operators and orders beyond the bound; floating-point rounding (C16)',
@@ -142,7 +142,7 @@ PROPS['C01'] = dict(
 PROPS['C15'] = dict(
     engine='A', technique='symbolic-scalar execution of the real predicates (branches on coefficient/grid comparisons forked by the solver) + QF_NRA obligations, exact-rational replay',
     harnesses=[dict(name='C15_predicates', src='C15_predicates.cpp',
-                    defs=dict(quick=['-DMAXN=4', '-DMAXO=2'], thorough=['-DMAXN=5', '-DMAXO=3']),
+                    defs=dict(quick=['-DMAXN=4', '-DMAXO=2', '-DLARGEN=17'], thorough=['-DMAXN=5', '-DMAXO=3', '-DLARGEN=24']),
                     functions=['Spline::isZero', 'Spline::checkOverlap', 'Spline::operator==', 'Spline::operator!=', 'Support::operator==', 'Support::hasSameGrid',
                                'Support::containsIntervals', 'Support::front', 'Support::back', 'Grid::operator== (pointer and element-wise paths)', 'std::vector<std::array<T,N>>::operator=='])],
     bounds=dict(quick='orders 0..2; every window (isZero) and every ordered window pair (==, checkOverlap) on grids of 2..4 (overlap: 2..5) symbolic points; grids shared, equal-but-distinct, and independent symbolic second grid (sizes 2..3); which coefficients vanish/agree is decided by solver forking',
@@ -156,7 +156,7 @@ PROPS['C15'] = dict(
 PROPS['C08'] = dict(
     engine='A', technique='symbolic-scalar execution of every multi-spline entry point on two grids with independent symbolic points (Grid::operator== forks decided by the solver) + QF_NRA obligations, exact-rational replay',
     harnesses=[dict(name='C08_grids', src='C08_grids.cpp', pre_includes=['symt/stub'],
-                    defs=dict(quick=['-DMAXN=4'], thorough=['-DMAXN=5', '-DMORE_ORDERS']),
+                    defs=dict(quick=['-DMAXN=4', '-DLARGE_GRIDS'], thorough=['-DMAXN=5', '-DMORE_ORDERS', '-DLARGE_GRIDS']),
                     functions=['Grid::operator==', 'Grid::operator!=', 'Support::hasSameGrid', 'Support::calcUnion', 'Support::calcIntersection', 'Spline::operator+', 'Spline::operator-',
                                'Spline::operator*(Spline)', 'Spline::operator+=', 'Spline::operator-=', 'linearCombination', 'BilinearForm::evaluate', 'ScalarProduct', 'integration::integrate<n>',
                                'SplineOperator::transform', 'operator*(Operator,Spline)', 'LinearForm::evaluate', 'BSplineGenerator(knots, grid)'])],
@@ -202,7 +202,7 @@ PROPS['C17'] = dict(
 PROPS['C11'] = dict(
     engine='A+B', irsym=[dict(module='c13', checks=[4, 6], params=dict(quick=dict(nmax_data=3), thorough=dict(nmax_data=3)))], technique='symbolic execution of the real validating entry points with IEEE-comparison scalars (z3 Float64: NaN/+-0/+-inf are solver variables) and real scalars; accept/refuse outcome proved equivalent to the documented predicate on every path',
     harnesses=[dict(name='C11_validation', src='C11_validation.cpp', chunk=1,
-                    defs=dict(quick=['-DMAXK=5', '-DMAXN=4'], thorough=['-DMAXK=6', '-DMAXN=5']),
+                    defs=dict(quick=['-DMAXK=5', '-DMAXN=4', '-DLARGEK=17', '-DLCCOUNT=9'], thorough=['-DMAXK=6', '-DMAXN=5', '-DLARGEK=20', '-DLCCOUNT=12']),
                     functions=['Grid::Grid (vector, iterator, initializer_list, shared_ptr)', 'Grid::checkValidity', 'Grid::isSteadilyIncreasing', 'Support::Support', 'Support::checkValidity',
                                'Spline::Spline', 'Spline::checkValidity', 'BSplineGenerator(knots)', 'BSplineGenerator(knots, grid)', 'BSplineGenerator::generateGrid (std::unique)',
                                'BSplineGenerator::generateBSplines<p>', 'linearCombination (argument checks)', 'interpolation::interpolate (argument checks)'])],
